@@ -135,6 +135,11 @@ func (ds *Describer) d(v ssa.Value, depth int) *VD {
 	ds.busy[v] = true
 	r := ds.d1(v, depth)
 	delete(ds.busy, v)
+	if r.Val != nil && r.Val != v {
+		// a transparent wrapper (load, conversion, boxing): its own node, sharing the structure of the inner value
+		cp := *r
+		r = &cp
+	}
 	r.Val = v
 	ds.memo[v] = r
 	return r
